@@ -26,8 +26,12 @@ def run_controls(run: Run, controls: Sequence[Control],
                  select: Callable[[str], Callable[[Run, Program], Any]] | None = None) -> None:
     from collections import Counter
 
-    if run.violations:
-        # the tree under analysis already violates a rule: report that; the both-ways test of the
+    from .report import load_known_findings, match_known
+
+    known = load_known_findings()
+    if any(match_known(known, run.prop_id, v) is None for v in run.violations):
+        # the tree under analysis already violates a rule (beyond the listed known findings, which every
+        # control variant shares with the base tree): report that; the both-ways test of the
         # checker is only meaningful (and only attributable) on a tree that passes
         run.controls.append({"control": "*", "fired": None,
                              "detail": "skipped: the analysed tree has violations"})
